@@ -78,6 +78,7 @@ struct Cfg {
   int copy_level = 0; // source copy level of the radiation step
   // C01 RHD part: reduced buffer / task pools (see ion::Cfg::tight_pools)
   bool tight_pools = false;
+  int pool_slack = 0; // see ion::Cfg::pool_slack
   long nbuffers = 0, ntasks = 0; // 0 = capacities that cannot be exhausted
   // C14 (system level): where the process dies during a restart dump
   double crash_frac = 0.;  // fraction of the numbered file operations
@@ -154,6 +155,7 @@ struct Cfg {
     j["diffuse_rhd"] = diffuse_rhd;
     j["copy_level"] = copy_level;
     j["tight_pools"] = tight_pools;
+    j["pool_slack"] = pool_slack;
     j["nbuffers"] = (long long)nbuffers;
     j["ntasks"] = (long long)ntasks;
     j["crash_frac"] = dbl_bits(crash_frac);
@@ -224,6 +226,7 @@ struct Cfg {
     c.diffuse_rhd = j.at("diffuse_rhd").as_bool();
     c.copy_level = (int)j.at("copy_level").as_int(0);
     c.tight_pools = j.at("tight_pools").as_bool();
+    c.pool_slack = (int)j.at("pool_slack").as_int(0);
     c.nbuffers = j.at("nbuffers").as_int(0);
     c.ntasks = j.at("ntasks").as_int(0);
     c.crash_frac = j.has("crash_frac") ? bits_dbl(j.at("crash_frac").as_string()) : 0.;
